@@ -67,14 +67,15 @@ func initSpecDirs() {
 	cdi.SetSpecValidator(schema.WithSchema(s))
 
 	if len(specDirs) > 0 {
-		cache, err := cdi.NewCache(
+		// configure the default cache: it is the one every command uses
+		err := cdi.Configure(
 			cdi.WithSpecDirs(specDirs...),
 		)
 		if err != nil {
 			fmt.Printf("failed to create CDI cache: %v\n", err)
 			os.Exit(1)
 		}
-		if len(cache.GetErrors()) > 0 {
+		if len(cdi.GetDefaultCache().GetErrors()) > 0 {
 			cdiPrintCacheErrors()
 			os.Exit(1)
 		}
